@@ -16,7 +16,7 @@ RULE = ('Inputs: every built-in function x argument shape {literal, reference, s
         'input is passed to every applicable rewriting function; the outcome must be a result of the documented kind '
         'or a licensed failure. Non-trivial = the function returned an object different from its input or raised; '
         'distinct = (api, input shape).')
-RULE_ADDED = " Since the seeding rounds: constant predicates in split positions, every operator x operand-kind pair the parser accepts, constant-power grid, aggregates over ranges of 10..10^18 integers, top-level ranges/sets/arrays (bounds equal, equal after folding, reversed); simplify's result type must lie inside the input type."
+RULE_ADDED = " Since the seeding rounds: constant predicates in split positions, every operator x operand-kind pair the parser accepts, constant-power grid, aggregates over ranges of 10..10^18 integers, top-level ranges/sets/arrays (bounds equal, equal after folding, reversed), exact integer folds between 2**1024 and the folding limit; simplify's result type must lie inside the input type."
 ASSUMPTIONS = [
     'simplify may raise only when a reference-free subterm is undefined or a divisor is zero on the whole grid; '
     'split_and may raise ValueError only when the input is false on the whole grid; a TypeError from a replacement '
@@ -309,7 +309,7 @@ def run(ctx):
 
     # B3. constant powers: every base x exponent pair over boundary values (zero, one, signs, fractions, large)
     bases = ('0', '0.0', '1', '2', '10', '0.5', '1234567890123456789')
-    exps = ('0', '1', '2', '0.5', '7', '100', '5000', '20000', '1e3')
+    exps = ('0', '1', '2', '0.5', '7', '100', '308', '309', '1023', '1024', '1100', '5000', '20000', '1e3')
     for sa in (False, True):
         for a in bases:
             for sb in (False, True):
@@ -332,7 +332,7 @@ def run(ctx):
     # B4. aggregates over constant ranges of growing size (folding must stay total: fold, or leave unfolded)
     for fn in ('sum', 'prod', 'len', 'max', 'min'):
         for lo in ('0', '1'):
-            for hi in ('10', '170', '1000', '2000', '50000', '1234567890123456789'):
+            for hi in ('10', '170', '171', '400', '1000', '2000', '50000', '1234567890123456789'):
                 for ex in (False, True):
                     cellno += 1
                     if not ctx.mine(cellno):
@@ -343,6 +343,26 @@ def run(ctx):
                         continue
                     ctx.count('large_range_aggregates')
                     apply_all(o[1], e, grid_envs, f'bigrange:{fn}|{lo}|{hi}|{ex}', extra_feats=('shape:large-range',),
+                              remake=parse_remake('expression'))
+
+    # B4b. exact integer arithmetic around the largest double (2**1024) and the folding limit: products, differences,
+    # negations and comparisons of constants whose exact value no double can hold
+    big = ('1' + '0' * 200, '1' + '0' * 310, '9' * 400)
+    for a in big:
+        for b in big:
+            for op in ('*', '+', '-', '<', '=', 'in'):
+                cellno += 1
+                if not ctx.mine(cellno):
+                    continue
+                rhs = ('set', (A.num(b), A.fld('x'))) if op == 'in' else A.num(b)
+                for e in (('bin', op, A.num(a), rhs), ('bin', op, A.neg(A.num(a)), rhs),
+                          ('bin', '<', A.fld('x'), ('bin', '*', A.num(a), A.num(b)))):
+                    o = hplapi.outcome(PE.parse, A.render_expr(e))
+                    if o[0] != 'ok':
+                        ctx.skip('big-integer-grid-rejected:' + type(o[1]).__name__)
+                        continue
+                    ctx.count('big_integer_folds')
+                    apply_all(o[1], e, grid_envs, f'bigint:{len(a)}|{len(b)}|{op}|{e[2][0]}', extra_feats=('shape:big-integer',),
                               remake=parse_remake('expression'))
 
     # B5. string literals with every kind of escape, in the folds that read literal values
